@@ -4,7 +4,7 @@ use crate::common::*;
 use crate::simalloc::{self, Entry};
 use crate::track;
 use crate::w1::*;
-use crate::w1_alloc::{AlignedErr, BigErr};
+use crate::w1_alloc::{Aligned256Err, AlignedErr, BigErr};
 use crate::w1_ops::*;
 use crate::{with_ety, with_tty, with_ty};
 use allocator_api2::alloc::Allocator;
@@ -870,6 +870,7 @@ impl<'s, const M: usize> Exec<'s, M> {
                 ErrTy::Small => with_tty!(*ty, T => self.op_try_with::<T, track::Tr<0>>(*try_, *fail, *inner, *seed)),
                 ErrTy::Big => with_tty!(*ty, T => self.op_try_with::<T, BigErr>(*try_, *fail, *inner, *seed)),
                 ErrTy::Aligned => with_tty!(*ty, T => self.op_try_with::<T, AlignedErr>(*try_, *fail, *inner, *seed)),
+                ErrTy::Aligned256 => with_tty!(*ty, T => self.op_try_with::<T, Aligned256Err>(*try_, *fail, *inner, *seed)),
             },
             Op::SliceTryFill { iter, ety, len, fail_at, inner, seed } => {
                 with_ety!(*ety, T => self.op_slice_try_fill::<T>(*iter, *len, *fail_at, *inner, *seed))
